@@ -32,6 +32,7 @@ type FontSpec struct {
 	CMapForm int             // Type0 / ToUnicode: 0 bfchar only, 1 bfrange where possible, 2 bfrange with array
 	CMapBlock int            // ToUnicode: at most this many entries per begin/end block (0 = 100, the limit of the format)
 	Widths   int             // standard Type1 fonts: 0 no /Widths, else every glyph this wide (a document's own metrics)
+	Embed    bool            // TrueType: the descriptor carries a font program (/FontFile2)
 }
 
 var asciiSafe = func() []rune {
@@ -78,6 +79,7 @@ func NewFont(kind int, resName string, r *sim.Rand) *FontSpec {
 		}
 		if kind == FontTrueTypeWin {
 			f.Base = sim.Pick(r, []string{"ArialMT", "ABCDEF+Verdana", "TimesNewRomanPSMT"})
+			f.Embed = r.Pct(60)
 		}
 	case FontStdMacRoman:
 		for _, c := range asciiSafe {
@@ -188,6 +190,10 @@ func (f *FontSpec) Objects(alloc func() int, genOf func(int) int, indirectParts 
 		desc := Dict{{"Type", Name("FontDescriptor")}, {"FontName", Name(f.Base)}, {"Flags", 32},
 			{"FontBBox", Arr{-100, -200, 1000, 900}}, {"ItalicAngle", 0}, {"Ascent", 900}, {"Descent", -200},
 			{"CapHeight", 700}, {"StemV", 80}}
+		if f.Embed {
+			prog := trueTypeProgram()
+			desc = append(desc, KV{"FontFile2", indirect(&Stream{Dict: Dict{{"Length1", len(prog)}}, Plain: prog})})
+		}
 		fontDict = Dict{{"Type", Name("Font")}, {"Subtype", Name("TrueType")}, {"BaseFont", Name(f.Base)},
 			{"FirstChar", 32}, {"LastChar", 255}, {"Widths", indirect(widths)}, {"FontDescriptor", indirect(desc)},
 			{"Encoding", Name("WinAnsiEncoding")}}
@@ -323,4 +329,114 @@ func (f *FontSpec) toUnicodeCMap(codeBytes int, r *sim.Rand) []byte {
 	}
 	b.WriteString("endcmap\nCMapName currentdict /CMap defineresource pop\nend\nend\n")
 	return b.Bytes()
+}
+
+// trueTypeProgram builds a small, well-formed sfnt: offset table, table directory
+// and the tables a text extractor may look at (head, hhea, hmtx, maxp, cmap with a
+// format 4 subtable for the Windows Unicode BMP encoding). Glyph outlines are left
+// out, as in a font program stripped for text-only use.
+func trueTypeProgram() []byte {
+	be16 := func(b *bytes.Buffer, v int) { b.WriteByte(byte(v >> 8)); b.WriteByte(byte(v)) }
+	be32 := func(b *bytes.Buffer, v int) { be16(b, v>>16); be16(b, v&0xffff) }
+	var head, hhea, hmtx, maxp, cmap bytes.Buffer
+	// head (54 bytes)
+	be32(&head, 0x00010000) // version
+	be32(&head, 0x00010000) // fontRevision
+	be32(&head, 0)          // checkSumAdjustment
+	be32(&head, 0x5F0F3CF5) // magic
+	be16(&head, 0)          // flags
+	be16(&head, 1000)       // unitsPerEm
+	for i := 0; i < 4; i++ {
+		be32(&head, 0) // created, modified
+	}
+	be16(&head, 0xFF9C) // xMin -100
+	be16(&head, 0xFF38) // yMin -200
+	be16(&head, 1000)
+	be16(&head, 900)
+	be16(&head, 0) // macStyle
+	be16(&head, 8) // lowestRecPPEM
+	be16(&head, 2) // fontDirectionHint
+	be16(&head, 0) // indexToLocFormat
+	be16(&head, 0) // glyphDataFormat
+	// hhea (36 bytes)
+	be32(&hhea, 0x00010000)
+	be16(&hhea, 900)
+	be16(&hhea, 0xFF38)
+	be16(&hhea, 0)
+	be16(&hhea, 1000) // advanceWidthMax
+	for i := 0; i < 11; i++ {
+		be16(&hhea, 0)
+	}
+	const nGlyphs = 6
+	be16(&hhea, nGlyphs) // numberOfHMetrics
+	for i := 0; i < nGlyphs; i++ {
+		be16(&hmtx, 500+20*i)
+		be16(&hmtx, 0)
+	}
+	// maxp version 0.5
+	be32(&maxp, 0x00005000)
+	be16(&maxp, nGlyphs)
+	// cmap: one subtable (3,1), format 4, segments [0x20..0x24] and the closing [0xFFFF]
+	be16(&cmap, 0)
+	be16(&cmap, 1)
+	be16(&cmap, 3)
+	be16(&cmap, 1)
+	be32(&cmap, 12)
+	segs := [][3]int{{0x20, 0x24, 0x10000 - 0x1F}, {0xFFFF, 0xFFFF, 1}} // start, end, idDelta
+	be16(&cmap, 4)
+	be16(&cmap, 16+8*len(segs))
+	be16(&cmap, 0)
+	be16(&cmap, 2*len(segs))
+	be16(&cmap, 4) // searchRange
+	be16(&cmap, 1) // entrySelector
+	be16(&cmap, 0) // rangeShift
+	for _, sg := range segs {
+		be16(&cmap, sg[1])
+	}
+	be16(&cmap, 0)
+	for _, sg := range segs {
+		be16(&cmap, sg[0])
+	}
+	for _, sg := range segs {
+		be16(&cmap, sg[2])
+	}
+	for range segs {
+		be16(&cmap, 0)
+	}
+	tables := []struct {
+		tag  string
+		data []byte
+	}{{"cmap", cmap.Bytes()}, {"head", head.Bytes()}, {"hhea", hhea.Bytes()}, {"hmtx", hmtx.Bytes()}, {"maxp", maxp.Bytes()}}
+	var out bytes.Buffer
+	be32(&out, 0x00010000)
+	be16(&out, len(tables))
+	be16(&out, 64) // searchRange
+	be16(&out, 2)  // entrySelector
+	be16(&out, len(tables)*16-64)
+	off := 12 + 16*len(tables)
+	for _, t := range tables {
+		out.WriteString(t.tag)
+		sum := 0
+		for i := 0; i < len(t.data); i += 4 {
+			w := 0
+			for k := 0; k < 4; k++ {
+				w <<= 8
+				if i+k < len(t.data) {
+					w |= int(t.data[i+k])
+				}
+			}
+			sum = (sum + w) & 0xFFFFFFFF
+		}
+		be32(&out, sum)
+		be32(&out, off)
+		be32(&out, len(t.data))
+		off += (len(t.data) + 3) &^ 3
+	}
+	for _, t := range tables {
+		out.Write(t.data)
+		for out.Len()%4 != 0 {
+			out.WriteByte(0)
+		}
+	}
+	return out.Bytes()
 }
